@@ -7,6 +7,7 @@ checks = {
  "C02": ("exploration", "Seeded search over fault scripts x schedules x retry budgets for the async producer against a model broker; per-partition log order and success offsets are judged against submission order per submitting goroutine; failing cases are minimised and replay exactly.", "Retry.Max=0 reordering after an abandoned broker worker is a listed known finding. " + COMMON),
  "C03": ("exploration", "Seeded search over generated logs (message set v0/v1, record batch v2, compressed wrappers with relative/absolute inner offsets, compaction gaps, log-start > 0, appends during the run), start offsets, fetch sizes, reader paces and fetch faults; every delivery is compared field by field with the model log as a prefix check, plus bounded liveness after faults stop.", "Fetch framing comes from the model's own encoder, independent of sarama's codecs; Consumer.Fetch.Max is 0 or larger than any batch. " + COMMON),
  "C04": ("exploration", "Every success is looked up in the model log (offset, key, value, headers, timestamp); the model broker validates produce payloads with its own codec (CRC, lengths, deltas) for each version x codec; every log record must map to a submitted message.", "Acked appends are never lost; the independent codec is trusted. " + COMMON),
+ "C06": ("exploration", "OffsetManager with 1-4 partition managers, 1-3 application goroutines issuing Mark/Reset/NextOffset (unique or all-empty metadata), auto-commit ticker or one manual committer, Close after or during marking, against a model coordinator with per-commit faults (error classes, missing block, drops, silence, coordinator move, load in progress); every committed pair must have been marked, stored offsets regress only after a reset, Mark/Reset/NextOffset histories are checked for linearizability (porcupine), and after a quiet Close/Commit the store equals the final position.", "The close-not-latest/lost-mark premise (coordinator accepted the final attempts) is decided from the model's request log and client-visible transport errors. " + COMMON),
  "C11": ("exploration", "Consumer scenario over generated transactional logs (overlapping, back-to-back, aborted-then-committed transactions, control batches, open transactions/LSO) with the aborted index served in random order and fetch boundaries inside transactions; the delivered sequence is compared with the committed/uncommitted view of the model log.", "The model computes LSO and aborted index as brokers do. " + COMMON),
  "C14": ("exploration", "One Broker connection, 1-8 concurrent callers issuing token-echoing requests, server behaviours (delay, wrong correlation id, truncated frame, oversized length, short header, abrupt close, reset, silence, stall), Close racing with calls; each call must get its own token or an error, nothing after the first connection fault may succeed or hang, and requests on the wire are counted at every write.", "MaxOpenRequests+1 on the wire is a listed known finding. " + COMMON),
  "C15": ("exploration", "Client against scripted metadata views (topics/partitions/leaders/brokers appearing, vanishing, erroring, readdressed) with concurrent readers, explicit and background refreshes and unreachable brokers; read results are checked for linearizability (porcupine) against a reference view folded from the responses the model served; refresh must succeed while a healthy seed exists.", "Which call requested a response is not observable: a served response is forced visible only when it reached a healthy connection and no background refresher runs; set-aside brokers are tolerated after the first unreachability event; the Broker.Open race is a listed known finding. " + COMMON),
